@@ -18,7 +18,27 @@ func (u *Unit) bytesOfVal(st *State, v Val) Term {
 // bytesOf introduces the byte-string value of a []byte term in the current heap: a constant with
 // its length and (pointwise) contents. Cached per (heap, slice) pair.
 func (u *Unit) bytesOf(st *State, s Term) Term {
+	if s.S == "nilslice" {
+		return Term{"bempty", "Bytes"}
+	}
+	if x := s.st(); x != nil && x.kind == 'i' {
+		// distribute over a conditional slice: the branches usually already have their constants
+		return ite(x.a, u.bytesOf(st, x.b), u.bytesOf(st, x.c))
+	}
 	_, h := u.memHeap(st, types.Typ[types.Uint8])
+	return u.bytesOfHeap(h, s)
+}
+
+// bytesOfHeap: the byte-string value of slice s in the byte memory h.
+func (u *Unit) bytesOfHeap(h Term, s Term) Term {
+	if hs := h.st(); hs != nil && hs.kind == 'A' {
+		// memory after an allocate-only call: arrays that existed before read the same bytes
+		return ite(app("Bool", "<", sArr(s), hs.a), u.bytesOfHeap(hs.b, s), u.bytesOfHeap1(h, s))
+	}
+	return u.bytesOfHeap1(h, s)
+}
+
+func (u *Unit) bytesOfHeap1(h Term, s Term) Term {
 	key := h.S + "|" + s.S
 	if u.bytesCache == nil {
 		u.bytesCache = map[string]Term{}
@@ -52,6 +72,14 @@ func (u *Unit) bytesOf(st *State, s Term) Term {
 	ln, off := u.def(sLen(s)), u.def(sOff(s))
 	row := u.def(sel(h, u.def(sArr(s))))
 	u.assume(tTrue, eq2(app("Int", "blen", b), ln))
+	// the value is a function of (heap, array, offset, length): equal slices read equal byte strings
+	idf, ok := u.bytesCache["id|"+h.S]
+	if !ok {
+		idf = Term{u.sym("bytesId"), "Bytes"}
+		u.lines = append(u.lines, fmt.Sprintf("(declare-fun %s (Int Int Int) Bytes)", idf.S))
+		u.bytesCache["id|"+h.S] = idf
+	}
+	u.assume(tTrue, eq2(b, app("Bytes", idf.S, u.def(sArr(s)), off, ln)))
 	u.assume(tTrue, Term{fmt.Sprintf("(forall ((i Int)) (! (=> (and (<= 0 i) (< i %s)) (= (select (barr %s) i) %s)) :pattern ((select (barr %s) i))))",
 		ln.S, b.S, sel(row, Term{fmt.Sprintf("(+ %s i)", off.S), "Int"}).S, b.S), "Bool"})
 	if row.st() == nil {
